@@ -107,6 +107,13 @@ func runC13Loaded(c *core.Ctx) {
 		"extend schema @tag\ndirective @tag on SCHEMA\ntype Query { a: Int }",
 		"schema { mutation: Query }\ntype Query { a: Int }",
 		"type Query { a: Int }\nextend schema { mutation: M }\ntype M { b: Int }",
+		// a type that is not an object but carries the default name of a root that is absent
+		"schema { query: Query }\ntype Query { a: Mutation }\nenum Mutation { A B }",
+		"schema { query: Query }\ntype Query { a(x: Subscription): Int }\ninput Subscription { v: Int }",
+		"schema { query: Query }\ntype Query { a: Subscription }\nscalar Subscription",
+		"schema { query: Query }\ntype Query { a: Mutation }\ninterface Mutation { f: Int }",
+		"schema { query: Query mutation: M }\ntype Query { a: Subscription }\ntype M { f: Int }\nunion Subscription = M | Query",
+		"schema { query: Q }\ntype Q { a: Query }\nenum Query { A }",
 	} {
 		for _, fl := range fmtSchemaFlagSets {
 			cases = append(cases, lc{[]string{src}, fl, "\t"})
